@@ -483,4 +483,142 @@ theorem fwd_inputFields {dk : Kind} (hdk : DescKind dk) (xs : List FieldDef) (ho
       subst this
       exact folArg_of_described hdk ht h2
 
+theorem fwd_fieldDef {dk : Kind} (hdk : DescKind dk) (x : FieldDef) (hok : FieldDefOK x) (n : Nat) (a : AS) (σ' : Stream)
+    (hs : Starts a.σ (printFieldDefK dk x) σ') (hfol : FolArg σ') :
+    Fwd (parseFieldDefinition n) a (fun y a' => y.erasePos = x.erasePos ∧ a'.σ = σ') := by
+  obtain ⟨f1, f2, f3, f4⟩ := hfol
+  have hs : Starts a.σ (printDescK dk x.desc ++ ([tName x.name] ++ (printArgDefsK dk x.args ++ ([tP .colon] ++ (printType x.type ++
+      printDirectives x.dirs))))) σ' := by simpa [printFieldDefK] using hs
+  rw [Starts.append_iff] at hs
+  obtain ⟨σ1, h1, hs⟩ := hs
+  rw [Starts.append_iff] at hs
+  obtain ⟨σ2, h2, hs⟩ := hs
+  rw [Starts.append_iff] at hs
+  obtain ⟨σ3, h3, hs⟩ := hs
+  rw [Starts.append_iff] at hs
+  obtain ⟨σ4, h4, hs⟩ := hs
+  rw [Starts.append_iff] at hs
+  obtain ⟨σ5, h5, h6⟩ := hs
+  have k6 := h6.firstKind
+  rw [firstKind_directives] at k6
+  unfold parseFieldDefinition
+  refine Fwd.bind (fwd_peekPos _) ?_
+  rintro pos b1 rfl
+  refine Fwd.bind (fwd_description hdk x.desc _ σ1 (by simpa using h1) (fun _ => by
+    have := h2.head_kind; simp only [tName] at this
+    exact ⟨by rw [this]; decide, by rw [this]; decide⟩)) ?_
+  rintro desc b2 ⟨rfl, hσ2⟩
+  refine Fwd.bind (fwd_peek b2) ?_
+  rintro _ b3 ⟨_, rfl⟩
+  refine Fwd.bind (fwd_parseName x.name (by simpa [hσ2] using h2)) ?_
+  rintro nm b4 ⟨rfl, hσ4⟩
+  refine Fwd.bind (fwd_argDefs hdk x.args hok.1 n b4 σ3 (by rw [hσ4]; exact h3) (fun _ => by
+    have := h4.head_kind; simp only [tP] at this; rw [this]; decide)) ?_
+  rintro as' b5 ⟨has, hσ5⟩
+  refine Fwd.bind (fwd_punct .colon (by rw [hσ5]; exact h4)) ?_
+  rintro _ b6 hσ6
+  refine Fwd.bind (fwd_type x.type n b6 σ5 (by rw [hσ6]; exact h5) (fun _ => by
+    rw [k6]; split
+    · exact f1
+    · decide)) ?_
+  rintro ty' b7 ⟨hty, hσ7⟩
+  refine Fwd.bind (fwd_directives true x.dirs hok.2.2.1 (fun _ => hok.2.2.2) n b7 σ' (by rw [hσ7]; exact h6) f3 f4) ?_
+  rintro ds' b8 ⟨hds, hσ⟩
+  refine (Fwd.pure _ _).mono ?_
+  rintro y b9 ⟨rfl, rfl⟩
+  exact ⟨by simp [FieldDef.erasePos, has, hty, hds, hok.2.1], hσ⟩
+
+theorem fwd_fieldDefs {dk : Kind} (hdk : DescKind dk) (xs : List FieldDef) (hok : ∀ x ∈ xs, FieldDefOK x) (n : Nat) (a : AS)
+    (σ' : Stream) (hs : Starts a.σ (printBlock (printFieldDefK dk) xs) σ') (habs : xs = [] → σ'.head.kind ≠ .braceL) :
+    Fwd (parseFieldsDefinition n) a (fun ys a' => ys.map FieldDef.erasePos = xs.map FieldDef.erasePos ∧ a'.σ = σ') := by
+  unfold parseFieldsDefinition
+  refine fwd_optBlock FieldDef.erasePos (printFieldDefK dk) FolArg .braceL .braceR xs
+    (fun x hx a0 σ1 hst hf => fwd_fieldDef hdk x (hok x hx) n a0 σ1 hst hf)
+    (fun x _ => ?_) (fun σ1 h => ?_) n a σ' hs habs
+  · obtain ⟨t, r, h1, h2⟩ := head_described dk x.desc x.name (printArgDefsK dk x.args ++ tP .colon :: printType x.type ++ printDirectives x.dirs)
+    refine ⟨t, r, by simpa [printFieldDefK] using h1, ?_⟩
+    rcases h2 with h | h <;> rcases hdk with h' | h' <;> simp_all
+  · rcases h with h | ⟨x, _, t, rest, hfx, ht⟩
+    · simp [FolArg, h]
+    · obtain ⟨t', r, h1, h2⟩ := head_described dk x.desc x.name (printArgDefsK dk x.args ++ tP .colon :: printType x.type ++ printDirectives x.dirs)
+      have : printFieldDefK dk x = t' :: r := by simpa [printFieldDefK] using h1
+      rw [this] at hfx
+      have : t = t' := (List.cons.inj hfx).1.symm
+      subst this
+      exact folArg_of_described hdk ht h2
+
+theorem fwd_enumVal {dk : Kind} (hdk : DescKind dk) (x : EnumValDef) (hok : EnumValOK x) (n : Nat) (a : AS) (σ' : Stream)
+    (hs : Starts a.σ (printEnumValK dk x) σ') (hfol : FolArg σ') :
+    Fwd (parseEnumValueDefinition n) a (fun y a' => y.erasePos = x.erasePos ∧ a'.σ = σ') := by
+  obtain ⟨f1, f2, f3, f4⟩ := hfol
+  have hs : Starts a.σ (printDescK dk x.desc ++ ([tName x.name] ++ printDirectives x.dirs)) σ' := by
+    simpa [printEnumValK] using hs
+  rw [Starts.append_iff] at hs
+  obtain ⟨σ1, h1, hs⟩ := hs
+  rw [Starts.append_iff] at hs
+  obtain ⟨σ2, h2, h3⟩ := hs
+  unfold parseEnumValueDefinition
+  refine Fwd.bind (fwd_peekPos _) ?_
+  rintro pos b1 rfl
+  refine Fwd.bind (fwd_description hdk x.desc _ σ1 (by simpa using h1) (fun _ => by
+    have := h2.head_kind; simp only [tName] at this
+    exact ⟨by rw [this]; decide, by rw [this]; decide⟩)) ?_
+  rintro desc b2 ⟨rfl, hσ2⟩
+  refine Fwd.bind (fwd_peek b2) ?_
+  rintro _ b3 ⟨_, rfl⟩
+  refine Fwd.bind (fwd_parseName x.name (by simpa [hσ2] using h2)) ?_
+  rintro nm b4 ⟨rfl, hσ4⟩
+  refine Fwd.bind (fwd_directives true x.dirs hok.1 (fun _ => hok.2) n b4 σ' (by rw [hσ4]; exact h3) f3 f4) ?_
+  rintro ds' b5 ⟨hds, hσ⟩
+  refine (Fwd.pure _ _).mono ?_
+  rintro y b6 ⟨rfl, rfl⟩
+  exact ⟨by simp [EnumValDef.erasePos, hds], hσ⟩
+
+theorem fwd_enumVals {dk : Kind} (hdk : DescKind dk) (xs : List EnumValDef) (hok : ∀ x ∈ xs, EnumValOK x) (n : Nat) (a : AS)
+    (σ' : Stream) (hs : Starts a.σ (printBlock (printEnumValK dk) xs) σ') (habs : xs = [] → σ'.head.kind ≠ .braceL) :
+    Fwd (parseEnumValuesDefinition n) a (fun ys a' => ys.map EnumValDef.erasePos = xs.map EnumValDef.erasePos ∧ a'.σ = σ') := by
+  unfold parseEnumValuesDefinition
+  refine fwd_optBlock EnumValDef.erasePos (printEnumValK dk) FolArg .braceL .braceR xs
+    (fun x hx a0 σ1 hst hf => fwd_enumVal hdk x (hok x hx) n a0 σ1 hst hf)
+    (fun x _ => ?_) (fun σ1 h => ?_) n a σ' hs habs
+  · obtain ⟨t, r, h1, h2⟩ := head_described dk x.desc x.name (printDirectives x.dirs)
+    refine ⟨t, r, by simpa [printEnumValK] using h1, ?_⟩
+    rcases h2 with h | h <;> rcases hdk with h' | h' <;> simp_all
+  · rcases h with h | ⟨x, _, t, rest, hfx, ht⟩
+    · simp [FolArg, h]
+    · obtain ⟨t', r, h1, h2⟩ := head_described dk x.desc x.name (printDirectives x.dirs)
+      have : printEnumValK dk x = t' :: r := by simpa [printEnumValK] using h1
+      rw [this] at hfx
+      have : t = t' := (List.cons.inj hfx).1.symm
+      subst this
+      exact folArg_of_described hdk ht h2
+
+theorem fwd_opTypeDef (x : OpTypeDef) (hop : isOperationType x.op) (a : AS) (σ' : Stream)
+    (hs : Starts a.σ (printOpType x) σ') :
+    Fwd parseOperationTypeDefinition a (fun y a' => y.erasePos = x.erasePos ∧ a'.σ = σ') := by
+  unfold printOpType at hs
+  obtain ⟨σ1, h1, hs⟩ := hs.cons_single
+  obtain ⟨σ2, h2, h3⟩ := hs.cons_single
+  obtain ⟨u, hσu, hu⟩ := h1.single
+  unfold parseOperationTypeDefinition
+  refine Fwd.bind (fwd_peekPos _) ?_
+  rintro pos b1 rfl
+  refine Fwd.bind (fwd_parseOperationType (a := { pk := true, σ := a.σ, cnt := a.cnt }) rfl hσu hu hop) ?_
+  rintro op b2 ⟨rfl, hσ2⟩
+  refine Fwd.bind (fwd_punct .colon (by rw [hσ2]; exact h2)) ?_
+  rintro _ b3 hσ3
+  refine Fwd.bind (fwd_parseName x.type (by rw [hσ3]; exact h3)) ?_
+  rintro ty b4 ⟨rfl, hσ⟩
+  refine (Fwd.pure _ _).mono ?_
+  rintro y b5 ⟨rfl, rfl⟩
+  exact ⟨rfl, hσ⟩
+
+theorem fwd_opTypes (xs : List OpTypeDef) (hok : ∀ x ∈ xs, isOperationType x.op) (n : Nat) (a : AS) (σ' : Stream)
+    (hs : Starts a.σ (printBlock printOpType xs) σ') (habs : xs = [] → σ'.head.kind ≠ .braceL) :
+    Fwd (pSome .braceL .braceR n parseOperationTypeDefinition) a
+      (fun ys a' => ys.map OpTypeDef.erasePos = xs.map OpTypeDef.erasePos ∧ a'.σ = σ') :=
+  fwd_optBlock OpTypeDef.erasePos printOpType (fun _ => True) .braceL .braceR xs
+    (fun x hx a0 σ1 hst _ => fwd_opTypeDef x (hok x hx) a0 σ1 hst)
+    (fun x _ => ⟨_, _, rfl, by simp [tName]⟩) (fun _ _ => trivial) n a σ' hs habs
+
 end Gql.Parser
